@@ -919,6 +919,29 @@ fn gen_nested_odd(rng: &mut Rng) -> Value {
     }
 }
 
+/// arrays in PREFIX relation whose members `partial_cmp` cannot compare (maps, arrays holding a
+/// map, mixed-kind pairs): `[]`, `[x]`, `[x, y]`, `[x, y, z]` over a tiny pool, so that strict
+/// prefixes, equal arrays and same-length-different arrays all meet in one input; only the
+/// length tie-break of `Ord::cmp` tells a strict prefix from the longer array
+fn gen_nested_prefix(rng: &mut Rng) -> Value {
+    let m = |k: &str, v: i128, rng: &mut Rng| map_of(vec![(Value::normal_string(k), enc_int(rng, v, true))]);
+    let item = |rng: &mut Rng| match rng.below(7) {
+        0 | 1 => m("a", 1, rng),
+        2 => m("a", 2, rng),
+        3 => Value::from(Map::new()),
+        4 => Value::from(vec![m("a", 1, rng)]),
+        5 => Value::from(vec![enc_int(rng, 1, true), Value::normal_string("x")]),
+        _ => enc_int(rng, 2, true),
+    };
+    // the first member is most often the same map so that many arrays share a prefix
+    let mut base = vec![if rng.chance(3, 4) { m("a", 1, rng) } else { item(rng) }];
+    base.push(if rng.chance(1, 2) { enc_int(rng, 2, true) } else { item(rng) });
+    base.push(item(rng));
+    let k = rng.below(4);
+    base.truncate(k);
+    Value::from(base)
+}
+
 fn map_of(entries: Vec<(Value, Value)>) -> Value {
     let mut m = Map::new();
     for (k, v) in entries {
@@ -960,6 +983,7 @@ enum Profile {
     Bytes,
     NestedComparable,
     NestedOdd,
+    NestedPrefix,
     Maps,
     Mixed,
 }
@@ -983,6 +1007,7 @@ fn gen_elem(rng: &mut Rng, p: Profile) -> Value {
                 gen_nested_comparable(rng)
             }
         }
+        Profile::NestedPrefix => gen_nested_prefix(rng),
         Profile::Maps => small_map(rng),
         Profile::Mixed => {
             let q = *rng.pick(&[
@@ -994,6 +1019,7 @@ fn gen_elem(rng: &mut Rng, p: Profile) -> Value {
                 Profile::Bytes,
                 Profile::NestedComparable,
                 Profile::NestedOdd,
+                Profile::NestedPrefix,
                 Profile::Maps,
                 Profile::Floats,
             ]);
@@ -1019,7 +1045,7 @@ fn gen_elems(rng: &mut Rng, n: usize, benign: bool) -> Vec<Value> {
             Profile::NestedComparable,
         ])
     } else {
-        *rng.pick(&[Profile::Mixed, Profile::Mixed, Profile::Mixed, Profile::NestedOdd, Profile::NestedOdd, Profile::Maps, Profile::Numbers, Profile::Strings])
+        *rng.pick(&[Profile::Mixed, Profile::Mixed, Profile::Mixed, Profile::NestedOdd, Profile::NestedOdd, Profile::NestedPrefix, Profile::NestedPrefix, Profile::Maps, Profile::Numbers, Profile::Strings])
     };
     let mut xs: Vec<Value> = (0..n).map(|_| gen_elem(rng, p)).collect();
     if rng.chance(1, 4) {
@@ -1392,6 +1418,21 @@ fn fixed_cases() -> Vec<Case> {
     out.push(Case::new("unique", Value::from(vec![map_of(vec![(s("a"), u(1))]), map_of(vec![(s("a"), u(2))]), map_of(vec![(s("a"), Value::from(1i64))])]), Arg::None));
     out.push(Case::new("unique", Value::from(vec![Value::from(vec![u(1), s("x")]), Value::from(vec![u(1), s("y")]), Value::from(vec![Value::from(1.0f64), Value::safe_string("x")])]), Arg::None));
     out.push(Case::new("unique", Value::from(vec![s("a"), Value::safe_string("a"), Value::bytes(vec![97u8]), Value::none(), Value::undefined(), Value::none()]), Arg::None));
+    // arrays holding a map (partial_cmp gives up) in prefix relation: only the length tie-break of
+    // `Ord::cmp` separates a strict prefix from the longer array
+    let ma = || map_of(vec![(s("a"), u(1))]);
+    let prefixes = Value::from(vec![
+        Value::from(vec![ma()]),
+        Value::from(vec![ma(), u(2)]),
+        Value::from(Vec::<Value>::new()),
+        Value::from(vec![ma(), u(2), ma()]),
+        Value::from(vec![ma()]),
+        Value::from(vec![Value::from(vec![ma()])]),
+        Value::from(vec![Value::from(vec![ma()]), Value::from(vec![ma()])]),
+    ]);
+    for f in ["unique", "sort"] {
+        out.push(Case::new(f, prefixes.clone(), Arg::None));
+    }
     for (t, p) in [("aaa", "aa"), ("ababa", "aba"), ("", ""), ("ab", ""), ("", ","), (",", ","), ("é日", "")] {
         out.push(Case::new("split", s(t), Arg::Str(p.into())));
     }
